@@ -232,6 +232,56 @@ func runYEnc(c Case) string {
 	return strings.Join(out, "\n")
 }
 
+// ---- lists with several keys: outside the Lean model (an entry is named by its first key there as in the code); a fixed
+// set of documents: entries that agree on the first key only are different entries, entries that agree on all are one too many
+
+const mkeyModule = `module m { namespace "urn:m"; prefix m; container c { list mk { key "a b"; leaf a { type string; } leaf b { type uint8; } leaf v { type string; } }
+  list sk { key k; leaf k { type string; } leaf v { type string; } } } }`
+
+func genYMKey(r *Rng, tier string, n int, emit func(Case)) {
+	for _, c := range []Case{
+		{"doc": `{"c":{"mk":[{"a":"1","b":1,"v":"x"},{"a":"1","b":2,"v":"y"}]}}`, "expect": "ok"},
+		{"doc": `{"c":{"mk":[{"a":"1","b":2},{"a":"2","b":1},{"a":"2","b":2}]}}`, "expect": "ok"},
+		{"doc": `{"c":{"mk":[{"a":"1","b":1,"v":"x"},{"a":"1","b":1,"v":"y"}]}}`, "expect": "refused"},
+		{"doc": `{"c":{"mk":[{"a":"1","b":1},{"a":"2","b":1},{"a":"1","b":1}]}}`, "expect": "refused"},
+		{"doc": `{"c":{"sk":[{"k":"1","v":"x"},{"k":"2","v":"x"}]}}`, "expect": "ok"},
+		{"doc": `{"c":{"sk":[{"k":"1","v":"x"},{"k":"1","v":"y"}]}}`, "expect": "refused"},
+	} {
+		c["k"] = "ymkey"
+		emit(c)
+	}
+}
+
+func runYMKey(c Case) string {
+	ms, err := compileTexts(nil, mkeyModule)
+	if err != nil {
+		return "compile-err " + err.Error()
+	}
+	dec := func(enc encoding.EncType, bs []byte) (datanode.DataNode, error) {
+		return encoding.NewUnmarshaller(enc).SetValidation(schema.DontValidate).Unmarshal(ms, bs)
+	}
+	tr, err := dec(encoding.JSON, []byte(cstr(c, "doc")))
+	if err != nil {
+		return "mk:refused"
+	}
+	want := walkOrd(ms, tr)
+	for _, e := range []struct {
+		name string
+		enc  encoding.EncType
+		fn   func(schema.Node, datanode.DataNode) []byte
+	}{{"rfc7951", encoding.RFC7951, encoding.ToRFC7951}, {"json", encoding.JSON, encoding.ToJSON}, {"xml", encoding.XML, encoding.ToXML}} {
+		back, derr := dec(e.enc, e.fn(ms, tr))
+		if derr != nil {
+			return "mk:" + e.name + " does not decode: " + firstLine(derr.Error())
+		}
+		if got := walkOrd(ms, back); got != want {
+			return "mk:" + e.name + " DIFF " + got + " instead of " + want
+		}
+	}
+	return "mk:ok"
+}
+
 func init() {
+	register(&Stream{Name: "ymkey", Prop: "C19", Gen: genYMKey, Run: runYMKey})
 	register(&Stream{Name: "yenc", Prop: "C19", Gen: genYEnc, Run: runYEnc})
 }
